@@ -23,11 +23,15 @@ EXTENDS Integers, Sequences, FiniteSets, TLC
 
 CONSTANTS P,      \* number of ranks, 0..P-1 ; rank 0 = ROOT
           J,      \* number of jobs per round, 0..J-1
-          R       \* number of consecutive rounds
+          R,      \* number of consecutive rounds
+          BossWorks   \* TRUE: rank 0 is master AND worker (mpi_skel::run); FALSE: rank 0 is a pure master (MPIMaster(..., include_boss = false),
+                      \*       loop "for (; !master.is_finished();) { master.order(); master.check_workers(); }"), ranks 1..P-1 are the workers
 
 Ranks == 0..(P - 1)
 Jobs  == 0..(J - 1)
 Root  == 0
+Workers == IF BossWorks THEN Ranks ELSE Ranks \ {Root}      \* the worker pool of the master
+NW == Cardinality(Workers)
 
 VARIABLES
   pc,          \* [Ranks -> {"order","recv","run","report","check","top","done"}]
@@ -59,7 +63,7 @@ Perms(S) == {f \in [1..Cardinality(S) -> S] : \A i, j \in 1..Cardinality(S) : i 
 StartRound(js) ==
   /\ pc' = [r \in Ranks |-> IF r = Root THEN "order" ELSE "recv"]
   /\ jobStack' = js
-  /\ workerStack' = SeqOfSet(Ranks)
+  /\ workerStack' = SeqOfSet(Workers)
   /\ dispatch' = EmptyMap
   /\ waitReq' = [r \in Ranks |-> FALSE]
   /\ finishSent' = [r \in Ranks |-> FALSE]
@@ -73,7 +77,7 @@ Init ==
   /\ \E js \in Perms(Jobs) :          \* complexities only permute the initial job stack
        /\ pc = [r \in Ranks |-> IF r = Root THEN "order" ELSE "recv"]
        /\ jobStack = js
-       /\ workerStack = SeqOfSet(Ranks)
+       /\ workerStack = SeqOfSet(Workers)
        /\ dispatch = EmptyMap
        /\ waitReq = [r \in Ranks |-> FALSE]
        /\ finishSent = [r \in Ranks |-> FALSE]
@@ -93,7 +97,7 @@ Order ==
           /\ waitReq' = [waitReq EXCEPT ![w] = TRUE]                           \* Comm.irecv(worker, Pending)
           /\ workerStack' = Tail(workerStack) /\ jobStack' = Tail(jobStack)
           /\ UNCHANGED pc
-     ELSE /\ pc' = [pc EXCEPT ![Root] = "recv"]
+     ELSE /\ pc' = [pc EXCEPT ![Root] = IF BossWorks THEN "recv" ELSE "check"]
           /\ UNCHANGED <<flightW, dispatch, waitReq, workerStack, jobStack>>
   /\ UNCHANGED <<arrivedW, flightM, arrivedM, finishSent, wStatus, curJob, ran, round>>
 
@@ -131,19 +135,21 @@ CheckWorkers ==
   /\ pc[Root] = "check"
   /\ LET done   == {w \in Ranks : waitReq[w] /\ arrivedM[w] # <<>>}
          pushed == PushAll(workerStack, SeqOfSet(done))
-         fin    == jobStack = <<>> /\ Len(pushed) >= P IN
+         fin    == jobStack = <<>> /\ Len(pushed) >= NW IN
      /\ workerStack' = pushed
      /\ waitReq' = [w \in Ranks |-> IF w \in done THEN FALSE ELSE waitReq[w]]
      /\ arrivedM' = [w \in Ranks |-> IF w \in done THEN Tail(arrivedM[w]) ELSE arrivedM[w]]
-     /\ flightW' = [w \in Ranks |-> IF fin /\ ~finishSent[w] THEN Append(flightW[w], Msg("Finish", -1)) ELSE flightW[w]]
-     /\ finishSent' = IF fin THEN [w \in Ranks |-> TRUE] ELSE finishSent
+     /\ flightW' = [w \in Ranks |-> IF fin /\ ~finishSent[w] /\ w \in Workers THEN Append(flightW[w], Msg("Finish", -1)) ELSE flightW[w]]
+     /\ finishSent' = IF fin THEN [w \in Ranks |-> w \in Workers] ELSE finishSent
   /\ pc' = [pc EXCEPT ![Root] = "top"]
   /\ UNCHANGED <<arrivedW, flightM, jobStack, dispatch, wStatus, curJob, ran, round>>
 
 \* loop condition !worker.is_finished()
 LoopTest(r) ==
   /\ pc[r] = "top"
-  /\ pc' = [pc EXCEPT ![r] = IF wStatus[r] = "Finish" THEN "done" ELSE IF r = Root THEN "order" ELSE "recv"]
+  /\ pc' = [pc EXCEPT ![r] = IF r = Root /\ ~BossWorks
+                                 THEN (IF \A w \in Workers : finishSent[w] THEN "done" ELSE "order")      \* !master.is_finished()
+                                 ELSE IF wStatus[r] = "Finish" THEN "done" ELSE IF r = Root THEN "order" ELSE "recv"]
   /\ UNCHANGED <<flightW, arrivedW, flightM, arrivedM, jobStack, workerStack, dispatch, waitReq, finishSent, wStatus, curJob, ran, round>>
 
 \* the network
